@@ -728,8 +728,8 @@ func checkFrame(c *collector, L int, bin bool, typ int, st *stats) {
 		// what the library wrote (then what the protocol prescribes, if different), followed by a
 		// second small frame, must come back as the same two packets
 		try := func(class, desyncClass string, bytesIn []byte) {
-			var bad, desync []string
-			var firstMsg, desyncMsg string
+			var bad, desync, aliased []string
+			var firstMsg, desyncMsg, aliasedMsg string
 			for _, comp := range compositions {
 				stage = "nextPacket(" + comp + ")"
 				next := frameReader(comp, append(append([]byte{}, bytesIn...), tail...))
@@ -759,6 +759,17 @@ func checkFrame(c *collector, L int, bin bool, typ int, st *stats) {
 						desyncMsg = fmt.Sprintf("the frame came back intact but the next frame on the stream (%s reader) did not: %s", comp, m)
 					}
 				}
+				// a packet belongs to whoever received it: reading the next frame must not change it (the
+				// application handles packets after the transport has gone on reading)
+				if m2 := diffPkt(got, p); m2 != "" {
+					aliased = append(aliased, comp)
+					if aliasedMsg == "" {
+						aliasedMsg = fmt.Sprintf("the packet came back intact but CHANGED when the next frame on the stream was read (%s reader): %s", comp, m2)
+					}
+				}
+			}
+			if len(aliased) > 0 {
+				fail(class+"/packet-changes-when-the-next-frame-is-read"+only(aliased), aliasedMsg)
 			}
 			if len(bad) > 0 {
 				fail(class+only(bad), firstMsg)
